@@ -58,7 +58,7 @@ pub fn c05() -> HistProp {
         rule: "seeded random histories (all key types, tables 1..4096 buckets, all buffer settings incl. eviction-forcing fixed sizes, 30% bucket-targeted keys so that chains form); the three files are read and decoded by the independent decoder at every close, after every successful flush/sync, and after every call in 20% of the cases. Oracle: the structural predicate of the statement (acyclic chains, key hashes to its bucket, no duplicate key, count == reachable, non-empty bucket => bit set, value offset in bounds / parseable / unshared, record fits its slot, header signatures) and decoded contents == model. evaluations counts histories, label decoded_states counts decoded images. Non-trivial: some decoded state has a chain of length >= 3 together with a non-empty free list; distinct by case digest.",
         assumptions: &["the decoder was written from the layout documentation only and shares no code with the crate, rabuf or vu64"],
         cfg: c05_cfg,
-        n: |t| t.pick(12000, 120000),
+        n: |t| t.pick(12000, 60000),
         nontrivial: |_h, r| r.has("state_chain3_and_free"),
         timeout: |t| t.pick(120, 300),
         shrink_iters: 1500,
@@ -137,7 +137,7 @@ pub fn c06() -> HistProp {
             "the slot bound uses call-boundary observations: the transient term is the largest number of allocations seen in a single call (relocation cascades allocate several slots inside one call)",
         ],
         cfg: c06_cfg,
-        n: |t| t.pick(10000, 100000),
+        n: |t| t.pick(10000, 50000),
         nontrivial: |_h, r| r.has("free_slot_reused"),
         timeout: |t| t.pick(120, 300),
         shrink_iters: 1500,
@@ -261,7 +261,7 @@ pub fn c17() -> HistProp {
         rule: "seeded random update histories (own run of the C05/C06 generators); after EVERY call the map is flushed, the files are decoded by the independent decoder and every CheckFileDbMap figure is recomputed from the decoded structure: count_of_free_{key,value}_piece == free-list lengths per class, {key,value}_piece_size_stats and {key,value}_length_stats (parsed from Display) == histograms over live records with non-zero length, htx_filling_rate_per_mill == (non-empty buckets, *1000/n); all calls must return (watchdog). evaluations counts histories, stats_compared counts compared states. Non-trivial: a compared state has >= 2 non-empty free lists and a live zero-length value; distinct by case digest.",
         assumptions: &["figures are compared through the public Display form of the statistics types"],
         cfg: c17_cfg,
-        n: |t| t.pick(10000, 100000),
+        n: |t| t.pick(10000, 50000),
         nontrivial: |_h, r| r.has("stats_nontrivial"),
         timeout: |t| t.pick(120, 300),
         shrink_iters: 1500,
@@ -313,7 +313,7 @@ pub fn c02() -> HistProp {
         rule: "seeded random histories with a close/reopen every ~10-50 calls; at each one every handle (map clones, re-acquired handles, db clones, a half-consumed iterator) is dropped in one of four generated orders and the directory is reopened with freshly drawn parameters (table size / buffers, same or different); about half of the reopens are first verified by a freshly spawned process (vp verify-dir) whose digest of len, get of every pool key and the full iteration must equal the model's. After every reopen: get of every pool key incl. absent ones, len, full iteration vs the model. Non-trivial: a reopen after >= 1 delete and >= 1 overwrite with parameters different from creation; distinct by case digest.",
         assumptions: &["a clean close is the drop of the last Rc; the child process is the same binary built from the same tree"],
         cfg: c02_cfg,
-        n: |t| t.pick(8000, 80000),
+        n: |t| t.pick(8000, 40000),
         nontrivial: |_h, r| r.has("reopen_after_delete_and_overwrite") && r.has("reopen_other_params"),
         timeout: |t| t.pick(90, 180),
         shrink_iters: 1000,
@@ -392,7 +392,7 @@ pub fn c04() -> HistProp {
         rule: "map states produced by seeded random insert/overwrite/delete histories (incl. maps emptied again) on tables of 1..65536 buckets (BucketsSize and Capacity); half of the cases place keys, via the re-implemented placement hash, into buckets at the edges of the bitmap scan (0,7,8,63,64,n-72..n-1, in particular n-9 and n-8) or all into one bucket; traversals with all seven flavours (iter, iter_mut, keys, values, into_iter, &map, &mut map), complete and partial, interleaved with the updates. Oracle: multiset of yielded pairs == model, count == len(), size_hint == (remaining, Some(remaining)) before every step, three more next() after the end return None. evaluations counts histories; labels iter_* count traversals. Non-trivial: a full traversal on a table != 8 buckets after at least one delete of a present key; distinct by case digest.",
         assumptions: &["the map is not modified during a traversal (the interpreter finishes or drops the iterator before the next update)"],
         cfg: c04_cfg,
-        n: |t| t.pick(12000, 120000),
+        n: |t| t.pick(12000, 60000),
         nontrivial: |h, r| {
             r.has("iter_full") && r.has("delete_present") && h.maps[0].params.buckets.bucket_count() != 8
         },
@@ -449,7 +449,7 @@ pub fn c14() -> HistProp {
         rule: "seeded random histories on all key types in which 40% of the calls are batches of 0..200 keys (rarely 4000-9000 pairs) in arbitrary order, present and absent, with repeats where the statement allows them (bulk_get/bulk_get_string: any; bulk_delete, bulk_put, bulk_put_string: repeated keys removed by the interpreter; put_from_iter: any, order matters; also put_from_iter fed by a live traversal of the same map through a second handle, rewriting every value in place with a value of the same length); values are raw byte patterns (mostly invalid UTF-8) and, for the *_string writers, text of 1-4 byte characters with stray invalid bytes, up to beyond 8 MiB in every 10th case. Oracle: position-wise equality with the model's element-wise results, full comparison of the map with the model after every writing batch, string forms == byte forms composed with from_utf8_lossy. Non-trivial: the history has an unsorted batch of >= 3 keys mixing present and absent keys; distinct by case digest.",
         assumptions: &[],
         cfg: c14_cfg,
-        n: |t| t.pick(12000, 120000),
+        n: |t| t.pick(12000, 60000),
         nontrivial: |_h, r| r.has("batch_unsorted_mixed"),
         timeout: |t| t.pick(120, 300),
         shrink_iters: 1500,
